@@ -44,10 +44,18 @@ CHECKS = {
             'Part: decides the structural clauses that are necessary for the property - no solve is issued while the previous one is unchecked or after a non-Optimal status (every criterion, arities, sequences), run() returns the latest status unchanged into pulp_status, and every statement that can emit the matching, a statistic or stability_correct is reachable only past the Timeout gate (limit set and (Not Solved or total_s > limit)) and through the Optimal edge of the status gate, with constants equal to the PuLP LpStatus strings read from the library source. Fault injection can only sample solve positions; the typestate covers all of them, including per-rank solves.',
             'NOT decided: that a time-limited stop always makes total_s exceed the limit (wall clock) - the only guard against an incumbent reported Optimal. Trusted: ast, PuLP constants.py source, A3.',
             'DESIGN.md section 5 C14'),
+    'C15': ('argparse table extraction; abstract interpretation of parse() per problem type with a None-ness domain ({None, False, True, Num} sets refined by guards, short-circuit and no-return parser.error); integer-shift-normalised bound guards vs the documented bounds; call-graph + CFG dominance for file-system writes',
+            'Static: for each of the four problem types parse() is interpreted with the type fixed; the required and banned sets are read off the guards that compare with parser.get_default and equal the documented tables; every absent option is a sentinel (None/False) so presence is decidable; the option checks and every arithmetic/ordering/count use in instance generation only ever see values that are present for every accepted argument set of that type (this is what found that no SM set was accepted); each documented bound is enforced by a guard ending in parser.error that is actually evaluated for each type it applies to; parse() dominates everything that can create a directory or open a file for writing; the popularity weights never divide by n-1 when n2 = 1.',
+            'Trusted: ast; argparse contracts (A5). Single-fault perturbations are covered symbolically (each required/banned/bound guard), not enumerated.',
+            'DESIGN.md section 5 C15'),
     'C16': ('abstract interpretation of Options_parser.parse to an effect tree: scatter/compact idiom, guard normal forms (integer interval of the range test), guard/scatter order, CFG dominance in Solver.__init__, argparse table vs documented flag table, typestate for the executed prefix',
             'Static: the ordering helper is shown to be scatter-at-(position-1) plus ascending compaction (hence sorted by position, gaps allowed, for every position assignment); each present criterion is range-checked against exactly 1..9 before the scatter; the duplicate check compares kept-count with present-count on every path; -stab without -twopl is refused on every path through parse(); parse dominates import_model; extras stay with their criterion; each criterion records its line before its first solve and the run stops at the first non-Optimal solve. Position vectors are never enumerated or executed.',
             'Trusted: ast; argparse contracts A5 (parser.error does not return; nargs=+ gives a list; store default None).',
             'DESIGN.md section 5 C16'),
+    'C17': ('symbolic list model of the weight vector; the element formula as a rational function of (x, n, s); polynomial identities (cross-multiplied); evaluation-point analysis of divisions; purity scan; argument flow into np.random.choice',
+            'Static proof by polynomial identity: the weight list has n entries, entry 0 and entries 1..n-1 follow one formula f(x) that is affine in x with f(0) = 1 and f(n-1) = s (checked as identities num - s*den == 0 etc.), the vector returned is that list divided by the sum of the same list, every division by a quantity vanishing at n = 1 sits inside range(1, n) (so n >= 2 there) and a single agent gets weight one; the function reads no module-level mutable state; the vector reaches np.random.choice(p=..., replace=False) unchanged over the population 1..n. Holds for every n >= 1 and s > 0, not a grid.',
+            'Floating-point rounding of the sum is not decided. Trusted: ast, numpy contracts (A4).',
+            'DESIGN.md section 5 C17'),
 }
 
 NOT_YET = 'checker under construction in this round (see DESIGN.md section 5 for the planned static rules)'
